@@ -29,7 +29,7 @@ def leaflib() -> Dict[str, Any]:
         for name, d in refsem.LEAVES.items():
             if d["kind"] == "ext":
                 _leaflib[name] = h.ExternalModule(
-                    name=name, domain="hvlib",
+                    name=d.get("extname", name), domain=d.get("domain", "hvlib"),
                     port_list=[h.Port(name=p, width=w) for p, w in d["ports"]], paramtype=TagParams)
         _leaflib["R"] = h.primitives.IdealResistor
         _leaflib["C"] = h.primitives.IdealCapacitor
@@ -43,7 +43,7 @@ def leaf_call(leafname: str, tag: Optional[int]):
     tag = int(tag or 0)
     if leafname not in lib and leafname in refsem.LEAVES and refsem.LEAVES[leafname]["kind"] == "ext":
         d = refsem.LEAVES[leafname]
-        lib[leafname] = h.ExternalModule(name=leafname, domain="hvlib",
+        lib[leafname] = h.ExternalModule(name=d.get("extname", leafname), domain=d.get("domain", "hvlib"),
                                          port_list=[h.Port(name=p, width=w) for p, w in d["ports"]], paramtype=TagParams)
     if leafname == "R":
         return lib["R"](r=1000 + tag)
